@@ -7,7 +7,7 @@
    prs (fmt x) = Some x, no TAB/LF in fmt x, fmt x <> '.' (part of [gff_wf]). *)
 From Coq Require Import List NArith Lia.
 From NV Require Import Base.Percent Base.PercentProofs Text.TextBase Text.TextBaseProofs
-  Text.Gff Text.GffProofs Text.Gtf Text.GtfProofs Text.Bed Text.BedProofs.
+  Text.Gff Text.GffProofs Text.Gtf Text.GtfProofs Text.Bed Text.BedProofs Text.BedRec Text.BedRecProofs.
 Import ListNotations.
 Open Scope N_scope.
 
@@ -136,13 +136,79 @@ Proof.
 Qed.
 
 (* ---- BED ---- *)
-(* PARTIAL (structural core): the line splits back into exactly the standard columns followed by
-   the extra columns, in order, for BED3..BED6 + any number of extra columns; the per-column
-   parsers invert the writers (lemmas bed_*_roundtrip in Text/BedProofs.v). *)
-Theorem c18_bed_record_roundtrip_partial : forall r line, bed_write r = Ok line ->
+(* Record level, for BED3..BED6 + any number of extra columns (the N the API has: Record<3..6>,
+   so BED7..BED12 are N=6 plus other fields).  Model of read_record_N into the caller's record
+   (buffer + bounds), the accessors slicing the buffer by the bounds, the owned conversion.
+   A line written for an accepted record [r], followed by ANY further text [rest], read into ANY
+   record [old] of the same N: consumes exactly the line, every accessor returns the written
+   value (extra columns in order), and the owned conversion is the record itself (fields above
+   its N at the builder's defaults).  [bed_wf]: 3 <= N <= 6, positions in 1..2^64-1, score
+   <= 65535 (u16), name <> Some "." (see c18_bed_name_dot_is_missing). *)
+Theorem c18_bed_record_roundtrip : forall r line rest old,
+  bed_wf r -> bed_write r = Ok line -> length (bf_std old) = b_n r ->
+  let o := bed_read_record (b_n r) (line ++ 10 :: rest) old in
+  ro_res o = Ok (length line + 1)%nat /\ ro_src o = rest
+  /\ bed_view_of (b_n r) (ro_rec o) = bed_expected_view r
+  /\ bed_owned (b_n r) (bed_view_of (b_n r) (ro_rec o)) = Ok (bed_canon r).
+Proof. exact bed_record_roundtrip. Qed.
+Print Assumptions c18_bed_record_roundtrip.
+
+(* stale-state freedom, for EVERY input text (not only written lines): the result, the input
+   left and -- when a record was read -- the whole record state do not depend on what the
+   reused record held before *)
+Theorem c18_bed_reused_record_independent : forall n src r1 r2,
+  (1 <= n)%nat -> length (bf_std r1) = n -> length (bf_std r2) = n ->
+  let o1 := bed_read_record n src r1 in
+  let o2 := bed_read_record n src r2 in
+  ro_res o1 = ro_res o2 /\ ro_src o1 = ro_src o2
+  /\ (forall k, ro_res o1 = Ok k -> ro_rec o1 = ro_rec o2).
+Proof. exact bed_reused_record_independent. Qed.
+Print Assumptions c18_bed_reused_record_independent.
+
+(* exactness of the previous statement: after a FAILED read the record is stale *)
+Theorem c18_bed_reused_record_stale_after_error : exists src r1 r2,
+  length (bf_std r1) = 3%nat /\ length (bf_std r2) = 3%nat /\
+  ro_res (bed_read_record 3 src r1) = Err InvalidData /\
+  ro_rec (bed_read_record 3 src r1) <> ro_rec (bed_read_record 3 src r2).
+Proof. exact bed_reused_record_stale_after_error. Qed.
+Print Assumptions c18_bed_reused_record_stale_after_error.
+
+(* a whole file (mixed numbers of extra columns) read line by line into ONE record *)
+Theorem c18_bed_file_roundtrip : forall n rs text old fuel,
+  Forall (fun r => bed_wf r /\ b_n r = n) rs -> bed_write_file rs = Ok text ->
+  length (bf_std old) = n -> (length rs < fuel)%nat ->
+  bed_read_file fuel n text old = map (fun r => Ok (bed_expected_view r)) rs.
+Proof. exact bed_file_roundtrip. Qed.
+Print Assumptions c18_bed_file_roundtrip.
+
+(* the fuel of the model of read_other_fields is always sufficient *)
+Theorem c18_bed_read_never_out_of_fuel : forall n src old,
+  ro_res (bed_read_record n src old) <> Err OutOfFuel.
+Proof. exact bed_read_never_out_of_fuel. Qed.
+Print Assumptions c18_bed_read_never_out_of_fuel.
+
+(* '.' is the BED spelling of a missing name: Some "." is accepted and reads back as None *)
+Definition bed_dot_demo : bed :=
+  {| b_n := 4; b_name := [99]; b_start := 1; b_end := None; b_nm := Some [46]; b_score := 0;
+     b_strand := None; b_others := [] |}.
+Theorem c18_bed_name_dot_is_missing :
+  bed_write bed_dot_demo = Ok [99; 9; 48; 9; 48; 9; 46] /\
+  bv_nm (bed_view_of 4 (ro_rec (bed_read_record 4 [99; 9; 48; 9; 48; 9; 46; 10] (bed_default 4))))
+    = Some (Ok None).
+Proof. split; vm_compute; reflexivity. Qed.
+Print Assumptions c18_bed_name_dot_is_missing.
+
+Example bed_demo_wf : bed_wf bed_demo /\ length (bf_std (bed_default 6)) = b_n bed_demo.
+Proof.
+  unfold bed_wf, bed_demo, u64_max. cbn. repeat split; try lia; try discriminate;
+    try (match goal with H : Some _ = Some _ |- _ => injection H as H; subst; lia end).
+Qed.
+
+(* the column-level core used by the theorem above *)
+Theorem c18_bed_columns_split : forall r line, bed_write r = Ok line ->
   split_all 9 (first_line (line ++ [10])) = bed_std_columns r ++ b_others r.
 Proof. exact bed_fields_roundtrip. Qed.
-Print Assumptions c18_bed_record_roundtrip_partial.
+Print Assumptions c18_bed_columns_split.
 
 Theorem c18_bed_start_roundtrip : forall s, 1 <= s <= u64_max -> bed_parse_start (fmt_dec (s - 1)) = Ok s.
 Proof. exact bed_start_roundtrip. Qed.
